@@ -122,13 +122,6 @@ Definition is_del_of (p : bytes) (o : op) : bool :=
   match o with ODel pk => beqb pk p | ODelRow d => beqb (r_pk d) p | _ => false end.
 Definition is_replace_of (p : bytes) (o : op) : bool :=
   match o with OReplace d => beqb (r_pk d) p | _ => false end.
-Definition is_modify_of (p : bytes) (o : op) : bool :=
-  match o with
-  | OReplace d => beqb (r_pk d) p
-  | OUpdate pk d => beqb pk p && beqb (r_pk d) p
-  | _ => false
-  end.
-
 (** some [a] then later some [b] in the window *)
 Fixpoint then_later (a b : op -> bool) (w : list op) : bool :=
   match w with
@@ -169,15 +162,8 @@ Definition kf2_explains (win : list op) (m0 m1 : tbl) (k : bytes) : bool :=
      match get p m1 with Some d => mem_key k (keys_of_row p d) | None => false end))
     (elements m0).
 
-(** finding 3: pending update/replace of a saved row, then Del: the saved
-    row's index entry stays *)
-Definition kf3_explains (win : list op) (m0 m1 : tbl) (e : bytes * kvval) : bool :=
-  existsb (fun r =>
-    let p := fst r in
-    then_later (is_modify_of p) (is_del_of p) win &&
-    match get p m1 with None => true | Some _ => false end &&
-    existsb (fun i => entry_eqb e (ikey i (idx_val (snd r) i) p, VPrim p)) all_idx)
-    (elements m0).
+(** (finding 3 — a stale index entry of the saved row after Update/Replace then
+    Del — is repaired in table.go; such a divergence is no longer classified) *)
 
 Definition classify_dump (win : list op) (seen : list triple) (m0 m1 : tbl)
            (dump : list (bytes * kvval)) : N :=
@@ -186,7 +172,6 @@ Definition classify_dump (win : list op) (seen : list triple) (m0 m1 : tbl)
   let missing := diff_entries want dump in     (* expected, not in the store *)
   let code_extra (e : bytes * kvval) : N :=
     if kf2_explains win m0 m1 (fst e) then 2%N
-    else if kf3_explains win m0 m1 e then 3%N
     else if colliding seen (fst e) then 4%N else 0%N in
   let code_missing (e : bytes * kvval) : N :=
     if kf2_explains win m0 m1 (fst e) then 2%N
